@@ -14,7 +14,7 @@ use cedar_policy::{Context, Entities, Entity, Request, Schema};
 use serde_json::json;
 
 #[derive(Clone, Copy, Debug, PartialEq, Eq)]
-enum Side {
+pub enum Side {
     /// request: principal / action / resource
     Request,
     /// context (request entry points and the context entry points)
@@ -23,12 +23,12 @@ enum Side {
     Entities,
 }
 
-struct Fault {
-    class: &'static str,
-    side: Side,
-    world: GWorld,
+pub struct Fault {
+    pub class: &'static str,
+    pub side: Side,
+    pub world: GWorld,
     /// the uid of the entity that was made non-conformant (entity faults)
-    victim: Option<Uid>,
+    pub victim: Option<Uid>,
 }
 
 fn kind_name(t: &GType) -> &'static str {
@@ -135,7 +135,7 @@ fn bad_enum_inside(gs: &GSchema, v: &GValue, t: &GType) -> Option<GValue> {
     }
 }
 
-const FAULT_CLASSES: [&str; 24] = [
+pub const FAULT_CLASSES: [&str; 24] = [
     "ctx-wrong-type",
     "ctx-missing-required",
     "ctx-undeclared-attr",
@@ -162,7 +162,7 @@ const FAULT_CLASSES: [&str; 24] = [
     "action-entity:undeclared",
 ];
 
-fn inject(rng: &mut Rng, gs: &GSchema, env: &Env, w: &GWorld, class: &'static str) -> Option<Fault> {
+pub fn inject(rng: &mut Rng, gs: &GSchema, env: &Env, w: &GWorld, class: &'static str) -> Option<Fault> {
     let mut nw = w.clone();
     let acts: Vec<Uid> = gs.actions.iter().map(|a| a.uid()).collect();
     let ordinary: Vec<Uid> = w.entities.keys().filter(|u| !acts.contains(u)).cloned().collect();
